@@ -164,6 +164,8 @@ class Ledger:
         return self.next
 
     def use(self, i, what):
+        if i is None:
+            return False
         if self.state.get(i) != "live":
             self.problems.append(f"{what} of tracked value #{i} which is {self.state.get(i, 'unknown')}")
             return False
@@ -171,6 +173,11 @@ class Ledger:
 
 
 def tracked_id(path, ptr, what):
+    reg = path.mem.get(ptr.region) if isinstance(ptr, Ptr) else None
+    if reg is not None and all(b is None for b in reg[ptr.off:ptr.off + 8]):
+        # the slot was never written on this path: the operation acts on uninitialised memory
+        path.ledger.problems.append(f"{what} of a slot that was never initialised on this path ({ptr.region})")
+        return None
     idv = z3.simplify(path.load(ptr, 8))
     if not z3.is_bv_value(idv):
         raise Unsupported(f"{what}: tracked id is not concrete on this path ({idv})")
@@ -208,6 +215,9 @@ def host_models():
 
     def eat(path, name, args):
         i = tracked_id(path, args[2], name)
+        if i is None:
+            path.events.append(Event("host", name, [z3.BitVecVal(0, 32)]))
+            return None
         val = path.load(Ptr(args[2].region, args[2].off + 8), 4)
         path.events.append(Event("host", name, [val]))
         if path.ledger.use(i, f"passing to {name}"):
@@ -224,6 +234,10 @@ def host_models():
         i = tracked_id(path, srcp, "clone")
         path.ledger.use(i, "clone")
         j = path.ledger.fresh()
+        if i is None:
+            path.store(dst, z3.BitVecVal(j, 64), 8)
+            path.store(Ptr(dst.region, dst.off + 8), z3.BitVecVal(0, 32), 4)
+            return None
         path.events.append(Event("own", "clone", [i, j]))
         path.store(dst, z3.BitVecVal(j, 64), 8)
         path.store(Ptr(dst.region, dst.off + 8), path.load(Ptr(srcp.region, srcp.off + 8), 4), 4)
@@ -239,8 +253,8 @@ def host_models():
     def eq_tracked(path, tyname, args):
         i = tracked_id(path, args[0], "eq")
         j = tracked_id(path, args[1], "eq")
-        path.ledger.use(i, "eq")
-        path.ledger.use(j, "eq")
+        if not (path.ledger.use(i, "eq") and path.ledger.use(j, "eq")) and (i is None or j is None):
+            return z3.BitVecVal(0, 8)
         a = path.load(Ptr(args[0].region, args[0].off + 8), 4)
         b = path.load(Ptr(args[1].region, args[1].off + 8), 4)
         return z3.simplify(b2i8(a == b))
